@@ -42,6 +42,26 @@ random tie-breaks cannot cause alarms):
             so the wrap-around is reached), inside the client's 26-bit range,
             and the allocator's declared id_offset()/num_ids and the server's
             per-client default group ids agree with that range.
+  reserve   (round 7b, vf/c16_extra.py) ContiguousBlockAllocator.reserve(
+            address, size, warn) inside alloc / free / double free histories:
+            a range of the partition without a live address must become live
+            (exactly that range), a range with a live address (same range,
+            same start with another length, interior, running into a live
+            range, covering it) must be refused with the live set unchanged;
+            reserved ranges are live for the bitmap model, so later alloc()
+            answers, free(start) and the "no space" verdicts are judged
+            against them.
+  perm      (round 7b) NodeIDAllocator.alloc_perm() / free_perm() interleaved
+            with alloc(): permanent ids pairwise distinct while live, inside
+            [user*2**26 + 2, user*2**26 + first temporary id) - never a
+            temporary id, also after the temporary ids wrapped - freed ones
+            may come back, free_perm of a temporary id changes nothing.
+  numalloc  (round 7b) PowerOfTwoAllocator, LRUNumberAllocator,
+            StackNumberAllocator, RingNumberAllocator under alloc / free
+            histories against reference models of their discipline
+            (vf/model_alloc.py): never a live range / number again, inside
+            the range, "none" only when the discipline has none, freed
+            blocks / numbers available again.
 """
 
 from vf.common import iter_cases, case_rng, h64, split, short_tb, tb_sites
@@ -61,7 +81,16 @@ RULE = ("seeded random histories (1-500 operations) of alloc(n) / free / double 
         "free_all) after which the history continues.  A history "
         "is non-trivial when it frees a live range that has a free neighbour "
         "(coalescing needed) and allocates successfully afterwards, or (node "
-        "ids) wraps at least once; distinct = hash of configuration + operations")
+        "ids) wraps at least once; distinct = hash of configuration + operations.  "
+        "Round 7b: the same direct histories with 25-60 % reserve(address, size) "
+        "calls (free run whole/head/tail/middle, 7 kinds of overlap with a live "
+        "range, uniform), non-trivial when a free range was reserved, an alloc "
+        "was judged with it live and a coalescing free happened; node-id "
+        "histories mixing alloc / alloc_perm / free_perm (first temporary id 3-64, "
+        "100-5000 or close to 2**26), non-trivial when a freed permanent id came "
+        "back or permanent ids were judged after a wrap; alloc / free histories "
+        "of the power-of-two, LRU, stack and ring allocators, non-trivial when a "
+        "freed block / number was handed out again (ring: wrapped)")
 ASSUMPTIONS = [
     "vf/model_alloc.py BitmapModel is the meaning of safe/complete allocation: "
     "partition = [offset+reserved, offset+size), one boolean per address",
@@ -79,6 +108,19 @@ ASSUMPTIONS = [
     "the alias of the START of a live range (Bus(index=start).free()) is a "
     "free the caller asked for and not exercised; members of a consecutive "
     "group are freed as a group (documented restriction)",
+    "reserve(address, size) is judged for ranges inside the client's partition "
+    "with size >= 1 only (what the sclang help documents); a refusal may be "
+    "None or an exception as long as the live set is unchanged; a range "
+    "without a live address must be reserved",
+    "permanent node ids: zone [user*2**26 + 2, user*2**26 + first temporary "
+    "id) (0 = root node, 1 = the client's default group); with every id of the "
+    "zone live no correct answer exists and only the zone is judged; free_perm "
+    "of a permanent id that was never handed out is not exercised",
+    "PowerOfTwoAllocator discipline (sclang): lengths rounded up to a power of "
+    "two, blocks never split or merged, a freed block serves its own size "
+    "class only, new blocks from the untouched end of [pos, size); LRU pool "
+    "holds hi - lo numbers, stack pool hi - lo + 1, ring cycles [lo, hi]; "
+    "double frees of the number pools are not exercised (undocumented)",
 ]
 MIN_COUNTERS = {
     'quick': {'allocs_judged': 100_000, 'none_answers_judged': 10_000,
@@ -108,6 +150,29 @@ MIN_COUNTERS = {
               'object_explicit_number_frees': 500,
               'object_free_all_calls': 100,
               'object_allocs_after_failed_operation': 10_000,
+              'reserve_calls_judged': 100_000,
+              'reserve_free_ranges_judged': 40_000,
+              'reserve_free_ranges_inside_a_free_block': 8_000,
+              'reserve_occupied_ranges_judged': 40_000,
+              'reserve_variant_same_range': 3_000,
+              'reserve_variant_same_start_shorter': 3_000,
+              'reserve_variant_same_start_longer': 3_000,
+              'reserve_variant_interior': 3_000,
+              'reserve_variant_runs_into_from_left': 3_000,
+              'reserve_variant_starts_inside_ends_after': 3_000,
+              'reserve_variant_covers': 3_000,
+              'reserve_allocs_judged_with_reserved_ranges_live': 30_000,
+              'reserve_none_answers_with_reserved_ranges_live': 5_000,
+              'reserve_frees_of_reserved_ranges': 20_000,
+              'reserve_history_coalescing_frees': 20_000,
+              'reserve_histories_offset_zero': 200,
+              'reserve_histories_offset_nonzero': 1_000,
+              'perm_ids_judged': 100_000,
+              'perm_ids_reused_after_free': 30_000,
+              'perm_ids_judged_after_temporary_wrap': 10_000,
+              'perm_frees_of_temporary_ids': 5_000,
+              'perm_double_frees': 1_000,
+              'perm_histories_user_nonzero': 1_000,
               'model_selftest': 1},
     'thorough': {'allocs_judged': 5_000_000, 'none_answers_judged': 500_000,
                  'none_answers_offset_zero': 100_000,
@@ -138,13 +203,38 @@ MIN_COUNTERS = {
                  'object_explicit_number_frees': 10_000,
                  'object_free_all_calls': 2000,
                  'object_allocs_after_failed_operation': 200_000,
+                 'reserve_calls_judged': 500_000,
+                 'reserve_free_ranges_judged': 200_000,
+                 'reserve_free_ranges_inside_a_free_block': 40_000,
+                 'reserve_occupied_ranges_judged': 200_000,
+                 'reserve_variant_same_range': 15_000,
+                 'reserve_variant_same_start_shorter': 15_000,
+                 'reserve_variant_same_start_longer': 15_000,
+                 'reserve_variant_interior': 15_000,
+                 'reserve_variant_runs_into_from_left': 15_000,
+                 'reserve_variant_starts_inside_ends_after': 15_000,
+                 'reserve_variant_covers': 15_000,
+                 'reserve_allocs_judged_with_reserved_ranges_live': 150_000,
+                 'reserve_none_answers_with_reserved_ranges_live': 25_000,
+                 'reserve_frees_of_reserved_ranges': 100_000,
+                 'reserve_history_coalescing_frees': 100_000,
+                 'reserve_histories_offset_zero': 1_000,
+                 'reserve_histories_offset_nonzero': 5_000,
+                 'perm_ids_judged': 500_000,
+                 'perm_ids_reused_after_free': 150_000,
+                 'perm_ids_judged_after_temporary_wrap': 50_000,
+                 'perm_frees_of_temporary_ids': 25_000,
+                 'perm_double_frees': 5_000,
+                 'perm_histories_user_nonzero': 5_000,
                  'model_selftest': 1},
 }
 
 
 def plan(tier, seed):
     quick = tier == 'quick'
-    secs = 35 if quick else 540
+    # thorough: the 16 shards of the first three workloads fill the 16 workers
+    # for 400 s, the 8 shards of the round-7b workloads follow for 130 s
+    secs = 35 if quick else 400
     shards = []
     nd = 100_000 if quick else 3_000_000
     for p, (f, n) in enumerate(split(nd, 6 if quick else 10)):
@@ -161,6 +251,16 @@ def plan(tier, seed):
         shards.append({'name': f'nodeid{p}', 'mode': 'nrt', 'kind': 'nodeid',
                        'first_case': f, 'n': n, 'secs': secs,
                        'hard_timeout': secs + 120})
+    # round 7b: entry points of _engine.py no other workload enters
+    for kind, total, parts in (('reserve', 30_000 if quick else 1_200_000, 2),
+                               ('perm', 20_000 if quick else 800_000, 1),
+                               ('numalloc', 40_000 if quick else 1_500_000, 1)):
+        if not quick:
+            parts *= 2
+        for p, (f, n) in enumerate(split(total, parts)):
+            shards.append({'name': f'{kind}{p}', 'mode': 'nrt', 'kind': kind,
+                           'first_case': f, 'n': n, 'secs': secs if quick else 130,
+                           'hard_timeout': secs + 120})
     return shards
 
 
@@ -1080,5 +1180,8 @@ def run_shard(spec, acc):
         run_direct(spec, acc)
     elif kind == 'objects':
         run_objects(spec, acc)
+    elif kind in ('reserve', 'perm', 'numalloc'):
+        from vf import c16_extra
+        getattr(c16_extra, 'run_' + kind)(spec, acc)
     else:
         run_nodeid(spec, acc)
